@@ -330,9 +330,10 @@ def enc_options(opts):
     return out
 
 
-def enc_request(rng, transport, code, segs):
-    """datagram (udp) or frame (tcp/tcpsrv) of a message with the given code and one Uri-Path option per segment"""
-    token = bytes(rng.randrange(256) for _ in range(rng.choice([0, 1, 2, 4, 8])))
+def enc_request(rng, transport, code, segs, token=None):
+    """datagram (udp, udpsrv) or frame (tcp/tcpsrv) of a message with the given code and one Uri-Path option per segment"""
+    if token is None:
+        token = bytes(rng.randrange(256) for _ in range(rng.choice([0, 1, 2, 4, 8])))
     opts = [(11, s.encode("utf-8")) for s in segs]
     if rng.random() < 0.25:
         opts.append((3, b"host"))
@@ -345,7 +346,7 @@ def enc_request(rng, transport, code, segs):
     body = enc_options(opts)
     if rng.random() < 0.25:
         body += b"\xff" + bytes(rng.randrange(256) for _ in range(rng.randrange(1, 20)))
-    if transport == "udp":
+    if transport in ("udp", "udpsrv"):
         typ = rng.choice([0, 1])                              # CON / NON
         mid = rng.randrange(1, 0xffff)
         return bytes([0x40 | (typ << 4) | len(token), code]) + mid.to_bytes(2, "big") + token + body
@@ -363,14 +364,21 @@ def segs_field(segs):
     return "none" if not segs else ",".join(hx(s) for s in segs)
 
 
-def wire_line(rng, segs, code=None, transport=None):
+def wire_line(rng, segs, code=None, transport=None, failed=False):
+    """failed=True: the request carries the token of an exchange that FAILED just before on the same connection / server
+    (observe registration that timed out; discovery whose datagram could not be written)"""
     if transport is None:
-        transport = rng.choice(["udp", "udp", "udp", "tcp", "tcp", "tcpsrv"])
+        transport = rng.choice(["udp", "udp", "udp", "tcp", "tcp", "tcpsrv", "udpsrv"])
+    token = None
+    field = transport
+    if failed:
+        token = bytes(rng.randrange(256) for _ in range(rng.choice([1, 2, 4, 8])))
+        field = "%s+%s:%s" % (transport, "discfail" if transport == "udpsrv" else "obsfail", token.hex())
     if code is None:
         k = rng.random()
         code = rng.choice([1, 2, 3, 4]) if k < 0.4 else rng.choice([5, 6, 7]) if k < 0.8 else \
             rng.choice([8, 13, 20, 31]) if k < 0.9 else rng.choice([65, 69, 132, 160])
-    return "wire %s %d %s %s" % (transport, code, segs_field(segs), enc_request(rng, transport, code, segs).hex())
+    return "wire %s %d %s %s" % (field, code, segs_field(segs), enc_request(rng, transport, code, segs, token).hex())
 
 
 def gen_wire_case(rng):
@@ -386,7 +394,7 @@ def gen_wire_case(rng):
                 segs = segs[:i] + [""] + segs[i:]
             if any(len(x.encode("utf-8")) > 255 for x in segs):
                 continue
-            out.append(wire_line(rng, segs))
+            out.append(wire_line(rng, segs, failed=rng.random() < 0.2))
         elif f[0] != "match":
             out.append(l)
     return out, meta
@@ -399,8 +407,17 @@ def gen_wire_systematic(rng):
             (["/a", "/dev/{id}"], [["a"], ["a", ""], ["dev", "42"], ["dev", "42", ""], ["", "a"], [""], []]),
             (["/rooms/{room}/lamps/{lamp}", "/rooms/{room}", "/version"],
              [["rooms", "r1", "lamps", "l2"], ["rooms", "r7"], ["version"], ["nothing", "here"], [], ["rooms", "r7", ""], ["version", ""]])]
+    # a request under the token of an exchange that failed just before must be routed like any other
+    for tr in ("udp", "tcp", "tcpsrv", "udpsrv"):
+        for dflt in (None, "default d1"):
+            lines = ["reset", "route %s hb" % hx("/b/{name}"), "route %s hello" % hx("/hello")] + ([dflt] if dflt else [])
+            for code in (1, 2, 5):
+                for segs in (["b", "x"], ["hello"], ["nothing"], []):
+                    lines.append(wire_line(rng, segs, code, tr, failed=True))
+                    lines.append(wire_line(rng, segs, code, tr))
+            cases.append((lines, {"meta_literal": False, "invalid": 0, "templates": ["/b/{name}", "/hello"]}))
     for ts, ps in fams:
-        for tr in ("udp", "tcp", "tcpsrv"):
+        for tr in ("udp", "tcp", "tcpsrv", "udpsrv"):
             lines = ["reset"] + ["route %s h%d" % (hx(t), i) for i, t in enumerate(ts)]
             for code in (1, 2, 3, 4, 5, 6, 7, 20, 69):
                 for segs in ps:
@@ -524,7 +541,8 @@ def explore(ctx, art):
     ctx.cov["distinct_nontrivial"] = len(ctx.nontrivial)
     ctx.cov["rule"] = ("one evaluation = one dispatch (serve: through mux.ToHandler, the servers' adapter, requests of a case one after another; "
                        "served: Router.ServeCOAP directly; match: Router.Match directly; wire: request BYTES from an independent encoder "
-                       "- any method code, one Uri-Path option per segment incl. empty ones - into a real udp/tcp connection or tcp server "
+                       "- any method code, one Uri-Path option per segment incl. empty ones, optionally under the token of an observe registration / "
+                       "discovery that failed just before - into a real udp/tcp connection, tcp server or udp server on a loopback socket "
                        "whose handler was installed by options.WithMux) after a "
                        "sequence of route/routef/unroute/default/mw operations on a fresh real mux.Router. Non-trivial = at least two "
                        "registered patterns match the path, or a registered template has a regex metacharacter in a literal; distinct by "
@@ -558,12 +576,14 @@ def evaluate(ctx, art, cases, n_random):
             ctx.count("out-" + o.split()[0])
             if op == "wire":
                 f = l.split()
-                ctx.count("wire-%s-code-%s" % (f[1], f[2] if int(f[2]) <= 7 else "other"))
+                if "+" in f[1]:
+                    ctx.count("wire-after-failed-" + f[1].split("+")[1].split(":")[0])
+                ctx.count("wire-%s-code-%s" % (f[1].split("+")[0], f[2] if int(f[2]) <= 7 else "other"))
                 if f[3] != "none" and "-" in f[3].split(","):
                     ctx.count("wire-empty-uri-path-segment")
         elif op in ("route", "routef", "unroute"):
             ctx.count("reg-" + " ".join(o.split()[:2]))
-        if o.startswith("panic other") or o.split()[0] in ("multi", "chain-without-handler", "bad-path", "bad-op", "process-error", "conn-error"):
+        if o.startswith("panic other") or o.split()[0] in ("multi", "chain-without-handler", "bad-path", "bad-op", "process-error", "conn-error", "preamble-did-not-fail", "sentinel-lost"):
             bad_cases.setdefault(ci, ("no-crash:" + o.split()[0], "%s -> %s" % (l, o[:200])))
             continue
         if judge is not None:
